@@ -1010,6 +1010,8 @@ struct PSpec {
     ops: Vec<OpSpec>,
     /// page-level /K references (land in `Page::other`)
     rest: Vec<u64>,
+    /// /Group << /CS [/ICCBased n 0 R] >> (oracle documents)
+    group_cs: Option<u64>,
     /// /Metadata reference, references inside /VP
     meta: Option<u64>,
     vp: Vec<u64>,
@@ -1152,6 +1154,7 @@ impl PDoc {
         if let Some(m) = p.meta { rest.push(('p', m)); }
         for x in &p.vp { rest.push(('p', *x)); }
         for x in &p.rest { rest.push(('p', *x)); }
+        if let Some(c) = p.group_cs { rest.push(('p', c)); }
         format!("{}/{}/{}/{}/{}/{}/{}", if ops.is_empty() { "-".to_string() } else { ops.join(",") }, res.join("~"), edges_str(&rest),
             opt(self.chain(i, &|a| a.media)), opt(self.chain(i, &|a| a.crop)), p.trim.map(|v| v.to_string()).unwrap_or("!".into()), opt(self.chain(i, &|a| a.rotate)))
     }
@@ -1231,6 +1234,7 @@ fn page_doc_parts(doc: &PDoc, g: &Graph, extra: &[(u64, Vec<u8>, bool)]) -> (Vec
         if let Some(m) = p.meta { d.push_str(&format!(" /Metadata {} 0 R", m)); }
         if !p.vp.is_empty() { d.push_str(&format!(" /VP [<< /Type /Viewport /K [{}] >>]", refs_txt(&p.vp))); }
         if !p.rest.is_empty() { d.push_str(&format!(" /K [{}]", refs_txt(&p.rest))); }
+        if let Some(c) = p.group_cs { d.push_str(&format!(" /Group << /S /Transparency /CS [/ICCBased {} 0 R] >>", c)); }
         d.push_str(" >>");
         objs.push((pid, d.into_bytes(), false));
     }
@@ -1478,6 +1482,7 @@ fn random_pdoc(rng: &mut Rng, g: &Graph, o: DocOpts, res_gen: &mut dyn FnMut(&mu
             ops: vec![],
             rest: (0..rng.below(3)).filter_map(|_| if ids.is_empty() { None } else { Some(*rng.pick(&ids)) }).collect(),
             meta: if !ids.is_empty() && rng.chance(1, 5) { Some(*rng.pick(&ids)) } else { None },
+            group_cs: None,
             vp: if !ids.is_empty() && rng.chance(1, 6) { vec![*rng.pick(&ids)] } else { vec![] },
             flate: rng.chance(1, 2),
             split: rng.chance(1, 4),
@@ -1755,6 +1760,8 @@ struct Cmp<'a, RO: Resolve, RN: Resolve> {
     /// generated sources: the plaintext data of the source's stream objects, as the generator wrote them (not
     /// as any reader sees them)
     plain: Option<BTreeMap<u64, Vec<u8>>>,
+    /// what was compared with the ground truth: kind of stream → count
+    plain_checked: BTreeMap<String, u64>,
 }
 
 fn num_of(p: &Primitive) -> Option<f64> {
@@ -1863,6 +1870,12 @@ impl<'a, RO: Resolve, RN: Resolve> Cmp<'a, RO, RN> {
                     (Ok(pa), Ok(pb)) => {
                         // ground truth: the copy of a stream holds the source's plaintext bytes
                         if let (Some(Some(want)), Primitive::Stream(sb)) = (self.plain.as_ref().map(|p| p.get(&ra.id).cloned()), &pb) {
+                            let nm = |k: &str| sb.info.get(k).and_then(|x| x.as_name().ok()).map(|x| x.to_string());
+                            let kind = if let Some(st) = nm("Subtype").filter(|s| s == "Image" || s == "Form" || s == "XML") { st }
+                                else if sb.info.get("Length1").is_some() { "FontFile".to_string() }
+                                else if sb.info.get("N").is_some() { "ICC".to_string() }
+                                else if path.contains("ToUnicode") { "ToUnicode".to_string() } else { "other".to_string() };
+                            *self.plain_checked.entry(format!("stream-vs-plaintext:{}{}", kind, if sb.info.get("Filter").is_some() { "(filtered)" } else { "" })).or_insert(0) += 1;
                             match sb.raw_data(self.rn) {
                                 Ok(got) if got[..] == want[..] => {}
                                 Ok(got) => self.diff("stream-data-differs-from-plaintext", format!("{}: the copy (object {}) of stream {} holds {} bytes that are not the {} bytes the source was written from", path, rb.id, ra.id, got.len(), want.len())),
@@ -2257,7 +2270,7 @@ fn exec_import(case: &Value) -> Value {
     }
     let plain: Option<BTreeMap<u64, Vec<u8>>> = case.get("plain").and_then(|p| p.as_object()).map(|m| m.iter().filter_map(|(k, v)| Some((k.parse().ok()?, unhex(v.as_str()?)?))).collect());
     let content_plain = case.get("content_plain").cloned().unwrap_or(Value::Null);
-    let mut cmp = Cmp { ro: &ro, rn: &rn, fwd: BTreeMap::new(), bwd: BTreeMap::new(), visited: BTreeSet::new(), diffs: vec![], steps: 0, plain };
+    let mut cmp = Cmp { ro: &ro, rn: &rn, fwd: BTreeMap::new(), bwd: BTreeMap::new(), visited: BTreeSet::new(), diffs: vec![], steps: 0, plain, plain_checked: BTreeMap::new() };
     for (ix, (pi, opage)) in done.iter().enumerate() {
         let npage = match catch_unwind(AssertUnwindSafe(|| new.get_page(ix as u32))) {
             Ok(Ok(p)) => p,
@@ -2391,6 +2404,7 @@ fn exec_import(case: &Value) -> Value {
         }
     }
     stats.insert("object-pairs".into(), cmp.fwd.len() as u64);
+    for (k, v) in &cmp.plain_checked { stats.insert(k.clone(), *v); }
     let mut diffs = std::mem::take(&mut cmp.diffs);
     // --- closure from the new trailer
     let roots = Primitive::Array(vec![Primitive::Reference(new.trailer.root.get_ref().get_inner())]);
@@ -2483,6 +2497,12 @@ fn run_import_cases(or: &mut Oracle, seed: u64, stream: &str, cases: Vec<ImportC
                     continue;
                 }
                 let imported = v["imported"].as_u64().unwrap_or(0);
+                if let Some(min) = c.case.get("min_streams").and_then(|m| m.as_u64()) {
+                    let got: u64 = v["stats"].as_object().map(|m| m.iter().filter(|(k, _)| k.starts_with("stream-vs-plaintext")).map(|(_, n)| n.as_u64().unwrap_or(0)).sum()).unwrap_or(0);
+                    if imported > 0 && got < min {
+                        or.fail("witness-streams-not-compared", &format!("{}: only {} imported streams were compared with the plaintext (expected at least {})", c.label, got, min), replay.clone());
+                    }
+                }
                 match c.case.get("expect").and_then(|e| e.as_str()) {
                     Some("success") if imported == 0 => or.fail("witness-import-failed", &format!("{}: importing was expected to succeed: {}", c.label, v["stats"]), replay.clone()),
                     Some("no-success") if imported != 0 => or.fail("witness-import-succeeded", &format!("{}: importing was expected to end with an error", c.label), replay.clone()),
@@ -2536,6 +2556,8 @@ struct Rich {
     images: Vec<u64>,
     forms: Vec<u64>,
     ocgs: Vec<u64>,
+    iccs: Vec<u64>,
+    metas: Vec<u64>,
 }
 
 fn png_up_rows(rows: &[Vec<u8>]) -> Vec<u8> {
@@ -2551,7 +2573,7 @@ fn png_up_rows(rows: &[Vec<u8>]) -> Vec<u8> {
 }
 
 fn rich_objects(rng: &mut Rng, g: &Graph) -> Rich {
-    let mut r = Rich { objs: vec![], fonts: vec![], images: vec![], forms: vec![], ocgs: vec![] };
+    let mut r = Rich { objs: vec![], fonts: vec![], images: vec![], forms: vec![], ocgs: vec![], iccs: vec![], metas: vec![] };
     let gids: Vec<u64> = g.keys().cloned().collect();
     let mut next = 200u64;
     let mut id = || { next += 1; next };
@@ -2560,7 +2582,15 @@ fn rich_objects(rng: &mut Rng, g: &Graph) -> Rich {
         let f = id(); let d = id(); let tu = id(); let w = id();
         let base = ["Helvetica", "Times-Roman", "Courier", "ABCDEF+Custom"][i as usize % 4];
         r.objs.push((f, format!("<< /Type /Font /Subtype /Type1 /BaseFont /{} /Encoding /WinAnsiEncoding /FirstChar 32 /LastChar 34 /Widths {} 0 R /FontDescriptor {} 0 R /ToUnicode {} 0 R >>", base, w, d, tu).into_bytes(), false));
-        r.objs.push((d, format!("<< /Type /FontDescriptor /FontName /{} /Flags 32 /FontBBox [-10 -20 1000 900] /ItalicAngle 0 /Ascent 700 /Descent -200 /CapHeight 650 /StemV 80 >>", base).into_bytes(), false));
+        // an embedded font program (any bytes will do: nothing parses them on import)
+        let ff = if rng.chance(2, 3) {
+            let ffid = id();
+            let n = 20 + rng.usize(400);
+            let prog = rng.bytes(n);
+            r.objs.push((ffid, if rng.chance(1, 2) { stream_body(&format!("/Length1 {} /Filter /FlateDecode", prog.len()), &zlib(&prog)) } else { stream_body(&format!("/Length1 {}", prog.len()), &prog) }, true));
+            format!(" /{} {} 0 R", ["FontFile", "FontFile2", "FontFile3"][rng.usize(3)], ffid)
+        } else { String::new() };
+        r.objs.push((d, format!("<< /Type /FontDescriptor /FontName /{} /Flags 32 /FontBBox [-10 -20 1000 900] /ItalicAngle 0 /Ascent 700 /Descent -200 /CapHeight 650 /StemV 80{} >>", base, ff).into_bytes(), false));
         let cmap = format!("/CIDInit /ProcSet findresource begin\n1 beginbfchar\n<20> <00{:02X}>\nendbfchar\nend", 0x41 + i);
         r.objs.push((tu, if rng.chance(1, 2) { stream_body("/Filter /FlateDecode", &zlib(cmap.as_bytes())) } else { stream_body("", cmap.as_bytes()) }, true));
         r.objs.push((w, b"[250 333.5 408]".to_vec(), false));
@@ -2595,6 +2625,20 @@ fn rich_objects(rng: &mut Rng, g: &Graph) -> Rich {
         r.objs.push((im, body, true));
         r.images.push(im);
     }
+    // ICC profiles (reached through /Group /CS of pages and forms) and XMP metadata streams
+    for _ in 0..rng.below(3) {
+        let c = id();
+        let n = 30 + rng.usize(200);
+        let prof = rng.bytes(n);
+        r.objs.push((c, if rng.chance(1, 2) { stream_body("/N 3 /Alternate /DeviceRGB /Filter /FlateDecode", &zlib(&prof)) } else { stream_body("/N 3 /Alternate /DeviceRGB", &prof) }, true));
+        r.iccs.push(c);
+    }
+    for i in 0..rng.below(3) {
+        let m = id();
+        let xml = format!("<?xpacket begin='' id='W5M0MpCehiHzreSzNTczkc9d'?><x:xmpmeta xmlns:x='adobe:ns:meta/'><n>{}</n></x:xmpmeta><?xpacket end='w'?>", 1000 * i + rng.below(1000));
+        r.objs.push((m, stream_body("/Type /Metadata /Subtype /XML", xml.as_bytes()), true));
+        r.metas.push(m);
+    }
     // optional-content groups (targets of /Properties)
     for i in 0..rng.below(3) {
         let o = id();
@@ -2615,7 +2659,10 @@ fn rich_objects(rng: &mut Rng, g: &Graph) -> Rich {
         content.push_str("Q");
         let mut d = String::from("/Type /XObject /Subtype /Form /BBox [0 0 50 50]");
         if rng.chance(1, 2) { d.push_str(" /Matrix [1 0 0 1 2.5 3]"); }
-        if rng.chance(1, 2) { d.push_str(" /Group << /S /Transparency /CS /DeviceRGB >>"); }
+        if rng.chance(1, 2) {
+            if !r.iccs.is_empty() && rng.chance(1, 2) { d.push_str(&format!(" /Group << /S /Transparency /CS [/ICCBased {} 0 R] >>", rng.pick(&r.iccs))); }
+            else { d.push_str(" /Group << /S /Transparency /CS /DeviceRGB >>"); }
+        }
         if rng.chance(2, 3) {
             if rng.chance(1, 2) { let rid = id(); r.objs.push((rid, res.clone().into_bytes(), false)); d.push_str(&format!(" /Resources {} 0 R", rid)); }
             else { d.push_str(&format!(" /Resources {}", res)); }
@@ -2661,7 +2708,7 @@ fn shift_graph(g0: Graph) -> Graph {
 
 fn simple_page(res: Vec<ResSpec>, ops: Vec<OpSpec>, rest: Vec<u64>) -> PSpec {
     PSpec { attrs: Attrs { media: Some(5), crop: None, rotate: Some(90), res: Some(res) }, trim: None, parent: 0, res_mode: ResMode::Direct, ops, rest,
-        meta: None, vp: vec![], flate: false, split: false, no_contents: false, cat_indirect: 0, entry_indirect: false }
+        meta: None, group_cs: None, vp: vec![], flate: false, split: false, no_contents: false, cat_indirect: 0, entry_indirect: false }
 }
 
 /// all pages directly below the root
@@ -2774,9 +2821,57 @@ fn witnesses() -> Vec<ImportCase> {
     out
 }
 
+/// fixed encrypted / prefixed / updated sources (independent of VERIF_SEED): one page that carries every kind of
+/// stream a page can carry — filtered image, form with its own resources, font with program and /ToUnicode, ICC
+/// profile in the page group, XMP metadata, a split content stream — for every family of the security handler
+fn source_witnesses() -> Vec<ImportCase> {
+    let mut out = vec![];
+    let vars = crate::c06::doc::variants();
+    let fams = ["R2-RC4-40", "R3-RC4", "R4-RC4", "R4-AES128", "R5-AES256", "R6-AES256"];
+    let mut layouts: Vec<(String, Layout)> = vec![];
+    for (k, f) in fams.iter().enumerate() {
+        // the longest key of the family
+        let ix = (0..vars.len()).filter(|i| vars[*i].name == *f).last().unwrap();
+        layouts.push((format!("encrypted source {}", f), Layout { xref_stream: k % 2 == 0, objstm: k % 4 == 0, flate: true, encrypt: Some(ix), encrypt_metadata: k % 3 != 0, prefix: 0, revisions: false, seed: 100 + k as u64 }));
+    }
+    layouts.push(("source behind a junk prefix".into(), Layout { prefix: 137, ..PLAIN }));
+    layouts.push(("encrypted source behind a junk prefix, two revisions".into(), Layout { xref_stream: true, objstm: false, flate: false, encrypt: Some(vars.len() - 3), encrypt_metadata: true, prefix: 61, revisions: true, seed: 7 }));
+    layouts.push(("source in two revisions with object streams".into(), Layout { xref_stream: true, objstm: true, flate: true, revisions: true, seed: 9, ..PLAIN }));
+    for (k, (label, layout)) in layouts.into_iter().enumerate() {
+        let mut rng = Rng::derive(0xC20, "c20.source-witness", k as u64);
+        let mut g = Graph::new();
+        g.insert(100, GNode { ty: NT::Stm, k: vec![101], a: None, b: None });
+        g.insert(101, GNode { ty: NT::Dict, k: vec![], a: None, b: None });
+        // rich objects until there is at least one of everything
+        let rich = loop {
+            let r = rich_objects(&mut rng, &g);
+            if !r.forms.is_empty() && !r.iccs.is_empty() && !r.metas.is_empty() && r.images.len() >= 2 { break r; }
+        };
+        let res = vec![
+            ResSpec { kind: 1, name: 1, payload: 0, kids: vec![rich.fonts[0]], raw: None },
+            ResSpec { kind: 2, name: 1, payload: 0, kids: vec![rich.images[0]], raw: None },
+            ResSpec { kind: 2, name: 2, payload: 0, kids: vec![rich.images[1]], raw: None },
+            ResSpec { kind: 2, name: 3, payload: 0, kids: vec![*rich.forms.last().unwrap()], raw: None },
+            ResSpec { kind: 0, name: 1, payload: 11, kids: vec![100], raw: None },
+        ];
+        let mut p = simple_page(res, vec![OpSpec::Other(0), OpSpec::Use(1, 1, 0), OpSpec::Other(6), OpSpec::Use(2, 1, 0), OpSpec::Use(2, 2, 0), OpSpec::Use(2, 3, 0), OpSpec::Use(0, 1, 0), OpSpec::Other(1)], vec![100]);
+        p.meta = Some(rich.metas[0]);
+        p.group_cs = Some(rich.iccs[0]);
+        p.split = true;
+        p.flate = k % 2 == 1;
+        let pdoc = flat_doc(vec![p], true);
+        let (root_body, objs) = page_doc_parts(&pdoc, &g, &rich.objs);
+        let (plain, content_plain) = ground_truth(&pdoc, &objs);
+        let doc = write_doc(&root_body, &objs, layout);
+        out.push(ImportCase { label: format!("witness {}", label), case: json!({"kind": "import", "doc": hex(&doc), "password": "-", "pages": [0], "expect": "success", "plain": plain, "content_plain": content_plain, "min_streams": 7}), child: true, nontrivial: true });
+    }
+    out
+}
+
 fn import_generated(seed: u64, thorough: bool) -> Oracle {
     let mut or = Oracle::new("c20.import.generated");
     let mut cases = witnesses();
+    cases.extend(source_witnesses());
     let n = if thorough { 10_000 } else { 1500 };
     for case in 0..n {
         let mut rng = Rng::derive(seed, "c20.import.generated", case);
@@ -2788,7 +2883,11 @@ fn import_generated(seed: u64, thorough: bool) -> Oracle {
         let all_kinds = rng.chance(1, 3);
         let pool = rich_pool(&mut rng, &g, &rich, all_kinds);
         let mut res_gen = |rng: &mut Rng| { let mut r: Vec<ResSpec> = pool.iter().filter(|_| rng.chance(2, 3)).cloned().collect(); rng.shuffle(&mut r); r };
-        let pdoc = random_pdoc(&mut rng, &g, DocOpts { all_kinds, max_pages: 4 }, &mut res_gen);
+        let mut pdoc = random_pdoc(&mut rng, &g, DocOpts { all_kinds, max_pages: 4 }, &mut res_gen);
+        for p in pdoc.pages.iter_mut() {
+            if !rich.metas.is_empty() && rng.chance(1, 2) { p.meta = Some(*rng.pick(&rich.metas)); }
+            if !rich.iccs.is_empty() && rng.chance(1, 2) { p.group_cs = Some(*rng.pick(&rich.iccs)); }
+        }
         let pages = &pdoc.pages;
         let layout = random_layout(&mut rng, (1, 2));
         let (root_body, objs) = page_doc_parts(&pdoc, &g, &rich.objs);
